@@ -1,1 +1,230 @@
-(* C18 proofs: in progress *)
+(* Proofs for Props/C18.v: equality, map keys and rendering of values agree.
+   Four of the seven statements are false of the model as first stated (see the counterexample lemmas); for those the
+   strongest true variants are proved as [*_partial] under named extra hypotheses. *)
+From Coq Require Import List String Ascii Bool Arith NArith ZArith Lia Permutation Sorting DecimalString DecimalN DecimalPos.
+From Yae Require Import Base.Sexp Model.Ty Gen.Generated Model.Num Model.Lexer Model.Literal Model.Val Model.Render
+  Model.ValSpec Model.TySpec Proofs.TyInd Proofs.C17Proofs.
+Import ListNotations.
+
+Local Arguments is_print : simpl never.
+Local Opaque is_print.
+
+(* ------------------------------------------------------------------------------------------------ *)
+(* Induction principle for the nested inductive [val]                                                *)
+(* ------------------------------------------------------------------------------------------------ *)
+
+Section ValInd.
+  Variable P : val -> Prop.
+  Hypothesis Hnum : forall b, P (VNum b).
+  Hypothesis Hbool : forall b, P (VBool b).
+  Hypothesis Hstr : forall s, P (VStr s).
+  Hypothesis Htime : forall s n, P (VTime s n).
+  Hypothesis Hlist : forall t vs, Forall P vs -> P (VList t vs).
+  Hypothesis Hmap : forall t kvs, Forall (fun kv => P (snd kv)) kvs -> P (VMap t kvs).
+  Hypothesis Hobj : forall t vs, Forall P vs -> P (VObj t vs).
+  Hypothesis Hnone : forall t, P (VMaybe t None).
+  Hypothesis Hsome : forall t x, P x -> P (VMaybe t (Some x)).
+  Hypothesis Hfun : forall t n l, P (VFun t n l).
+
+  Fixpoint val_ind' (v : val) : P v :=
+    match v with
+    | VNum b => Hnum b | VBool b => Hbool b | VStr s => Hstr s | VTime s n => Htime s n
+    | VList t vs => Hlist t vs ((fix go (l : list val) : Forall P l :=
+                                  match l with [] => Forall_nil _ | a :: r => Forall_cons _ (val_ind' a) (go r) end) vs)
+    | VMap t kvs => Hmap t kvs ((fix go (l : list (list N * val)) : Forall (fun kv => P (snd kv)) l :=
+                                   match l with [] => Forall_nil _ | a :: r => Forall_cons _ (val_ind' (snd a)) (go r) end) kvs)
+    | VObj t vs => Hobj t vs ((fix go (l : list val) : Forall P l :=
+                                 match l with [] => Forall_nil _ | a :: r => Forall_cons _ (val_ind' a) (go r) end) vs)
+    | VMaybe t None => Hnone t
+    | VMaybe t (Some x) => Hsome t x (val_ind' x)
+    | VFun t n l => Hfun t n l
+    end.
+End ValInd.
+
+(* ------------------------------------------------------------------------------------------------ *)
+(* Small facts: byte strings, decimal printing                                                       *)
+(* ------------------------------------------------------------------------------------------------ *)
+
+Lemma list_eqb_eq a : forall b, list_eqb a b = true <-> a = b.
+Proof.
+  induction a as [|x r IH]; intros [|y s]; simpl; split; intros H; try discriminate; try reflexivity.
+  - apply andb_true_iff in H. destruct H as [H1 H2]. apply N.eqb_eq in H1. apply IH in H2. congruence.
+  - injection H as E1 E2. subst. rewrite N.eqb_refl. simpl. apply IH. reflexivity.
+Qed.
+
+Lemma list_eqb_refl a : list_eqb a a = true.
+Proof. apply list_eqb_eq. reflexivity. Qed.
+
+Lemma list_eqb_sym a b : list_eqb a b = list_eqb b a.
+Proof.
+  destruct (list_eqb a b) eqn:E1; destruct (list_eqb b a) eqn:E2; try reflexivity.
+  - apply list_eqb_eq in E1. subst. rewrite list_eqb_refl in E2. discriminate.
+  - apply list_eqb_eq in E2. subst. rewrite list_eqb_refl in E1. discriminate.
+Qed.
+
+Lemma list_ascii_of_string_inj s : forall t, list_ascii_of_string s = list_ascii_of_string t -> s = t.
+Proof.
+  induction s as [|c s IH]; intros [|d t]; simpl; intros H; try discriminate; try reflexivity.
+  injection H as E1 E2. f_equal; auto.
+Qed.
+
+Lemma N_of_ascii_inj a b : N_of_ascii a = N_of_ascii b -> a = b.
+Proof. intros H. rewrite <- (ascii_N_embedding a), <- (ascii_N_embedding b), H. reflexivity. Qed.
+
+Lemma map_inj {X Y} (f : X -> Y) : (forall a b, f a = f b -> a = b) -> forall l1 l2, map f l1 = map f l2 -> l1 = l2.
+Proof.
+  intros Hf. induction l1 as [|a r IH]; intros [|b s]; simpl; intros H; try discriminate; try reflexivity.
+  injection H as E1 E2. f_equal; auto.
+Qed.
+
+Lemma bytes_of_string_inj s t : bytes_of_string s = bytes_of_string t -> s = t.
+Proof.
+  unfold bytes_of_string. intros H. apply list_ascii_of_string_inj.
+  eapply map_inj; [|exact H]. apply N_of_ascii_inj.
+Qed.
+
+Lemma string_of_uint_digit d : d <> Decimal.Nil ->
+  exists c s, NilZero.string_of_uint d = String c s /\ c <> "-"%char.
+Proof.
+  destruct d; intros H; try congruence; simpl; eexists; eexists; (split; [reflexivity|discriminate]).
+Qed.
+
+Lemma N_to_uint_nonnil n : N.to_uint n <> Decimal.Nil.
+Proof. destruct n; simpl; [discriminate|apply DecimalPos.Unsigned.to_uint_nonnil]. Qed.
+
+Lemma string_of_N_inj a b : string_of_N a = string_of_N b -> a = b.
+Proof.
+  unfold string_of_N. intros H.
+  apply DecimalN.Unsigned.to_uint_inj.
+  assert (Some (N.to_uint a) = Some (N.to_uint b)) as E.
+  { rewrite <- (NilZero.usu _ (N_to_uint_nonnil a)), <- (NilZero.usu _ (N_to_uint_nonnil b)), H. reflexivity. }
+  congruence.
+Qed.
+
+Lemma string_of_N_nodash n s : string_of_N n <> String "-" s.
+Proof.
+  unfold string_of_N. destruct (string_of_uint_digit _ (N_to_uint_nonnil n)) as [c [s' [E Hc]]].
+  rewrite E. congruence.
+Qed.
+
+Lemma string_of_Z_inj a b : string_of_Z a = string_of_Z b -> a = b.
+Proof.
+  destruct a as [|p|p], b as [|q|q]; simpl; intros H; try reflexivity.
+  - change "0"%string with (string_of_N 0) in H. apply string_of_N_inj in H. discriminate.
+  - exfalso. change "0"%string with (string_of_N 0) in H. eapply string_of_N_nodash; eauto.
+  - change "0"%string with (string_of_N 0) in H. apply string_of_N_inj in H. discriminate.
+  - apply string_of_N_inj in H. congruence.
+  - exfalso. eapply string_of_N_nodash; eauto.
+  - exfalso. change "0"%string with (string_of_N 0) in H. symmetry in H. eapply string_of_N_nodash; eauto.
+  - exfalso. symmetry in H. eapply string_of_N_nodash; eauto.
+  - injection H as H. apply string_of_N_inj in H. congruence.
+Qed.
+
+Lemma fmt_Z_inj a b : fmt_Z a = fmt_Z b -> a = b.
+Proof. unfold fmt_Z. intros H. apply string_of_Z_inj. apply bytes_of_string_inj. exact H. Qed.
+
+(* ------------------------------------------------------------------------------------------------ *)
+(* big_distinct                                                                                      *)
+(* ------------------------------------------------------------------------------------------------ *)
+
+Section BigDistinct.
+  Variable ops : numops.
+
+  Lemma big_distinct : forall a b,
+    (forall x y, is_int ops x = true -> is_int ops y = true -> to_i64 ops x = to_i64 ops y -> num_eq ops x y = true) ->
+    (forall x y, is_int ops x = false -> is_int ops y = false -> fmt_float ops x = fmt_float ops y -> x = y) ->
+    (forall x y, is_int ops x = true -> is_int ops y = false -> fmt_Z (to_i64 ops x) <> fmt_float ops y) ->
+    (forall b0, In b0 [a; b] -> num_eq ops b0 b0 = true) ->
+    fmt_num ops a = fmt_num ops b -> num_eq ops a b = true.
+  Proof.
+    intros a b Hii Hff Hif Hrefl Hfmt. unfold fmt_num in Hfmt.
+    destruct (is_int ops a) eqn:Ia; destruct (is_int ops b) eqn:Ib.
+    - apply Hii; try assumption. apply fmt_Z_inj. exact Hfmt.
+    - exfalso. eapply Hif; eauto.
+    - exfalso. eapply Hif; eauto.
+    - assert (a = b) as E by (apply Hff; assumption). subst b. apply Hrefl. left. reflexivity.
+  Qed.
+End BigDistinct.
+
+(* ------------------------------------------------------------------------------------------------ *)
+(* quote_injective: a decoder for the per-rune encodings of strconv.Quote.                           *)
+(* [is_print] is never unfolded: the result holds for every "printable" predicate.                   *)
+(* ------------------------------------------------------------------------------------------------ *)
+
+Section Quote.
+  Local Open Scope N_scope.
+  Local Ltac Zify.zify_post_hook ::= Z.div_mod_to_equations.
+
+  Ltac nb :=
+    repeat match goal with
+           | |- context [N.ltb ?a ?b] => destruct (N.ltb_spec a b)
+           | |- context [N.leb ?a ?b] => destruct (N.leb_spec a b)
+           | |- context [N.eqb ?a ?b] => destruct (N.eqb_spec a b)
+           end.
+
+  Definition unhexd (c : N) : N := if N.ltb c 58 then c - 48 else c - 87.
+  Definition unhex2 (h1 h2 : N) : N := unhexd h1 * 16 + unhexd h2.
+  Definition unhex4 (h1 h2 h3 h4 : N) : N := unhex2 h1 h2 * 256 + unhex2 h3 h4.
+  Definition unhex8 (h1 h2 h3 h4 h5 h6 h7 h8 : N) : N := unhex4 h1 h2 h3 h4 * 65536 + unhex4 h5 h6 h7 h8.
+
+  Lemma unhexd_hexd n : unhexd (hexd n) = n.
+  Proof. unfold unhexd, hexd. nb; lia. Qed.
+
+  Lemma unhex2_hex2 n : unhex2 (hexd (n / 16)) (hexd (n mod 16)) = n.
+  Proof. unfold unhex2. rewrite !unhexd_hexd. lia. Qed.
+
+  Lemma unhex4_hex4 n :
+    unhex4 (hexd (n / 256 / 16)) (hexd ((n / 256) mod 16)) (hexd (n mod 256 / 16)) (hexd ((n mod 256) mod 16)) = n.
+  Proof. unfold unhex4. rewrite !unhex2_hex2. lia. Qed.
+
+  Definition width (c : N) : nat :=
+    if N.ltb c 128 then 1%nat else if N.ltb c 224 then 2%nat else if N.ltb c 240 then 3%nat else 4%nat.
+
+  (* one encoded rune off the front of a quoted text: (the input bytes it stands for, the rest) *)
+  Definition dec_step (l : list N) : option (list N * list N) :=
+    match l with
+    | [] => None
+    | c :: t =>
+        if N.eqb c 34 then None
+        else if N.eqb c 92 then
+          match t with
+          | [] => None
+          | e :: u =>
+              if N.eqb e 120 then match u with h1 :: h2 :: v => Some ([unhex2 h1 h2], v) | _ => None end
+              else if N.eqb e 117 then
+                match u with h1 :: h2 :: h3 :: h4 :: v => Some (utf8_encode (unhex4 h1 h2 h3 h4), v) | _ => None end
+              else if N.eqb e 85 then
+                match u with
+                | h1 :: h2 :: h3 :: h4 :: h5 :: h6 :: h7 :: h8 :: v =>
+                    Some (utf8_encode (unhex8 h1 h2 h3 h4 h5 h6 h7 h8), v)
+                | _ => None end
+              else if N.eqb e 97 then Some ([7], u) else if N.eqb e 98 then Some ([8], u)
+              else if N.eqb e 102 then Some ([12], u) else if N.eqb e 110 then Some ([10], u)
+              else if N.eqb e 114 then Some ([13], u) else if N.eqb e 116 then Some ([9], u)
+              else if N.eqb e 118 then Some ([11], u)
+              else Some ([e], u)
+          end
+        else Some (firstn (width c) l, skipn (width c) l)
+    end.
+
+  Definition stepf (x : N * nat * N) : list N :=
+    let '(r, w, b0) := x in if Nat.eqb w 1 && N.eqb r 65533 then [92; 120] ++ hex2 b0 else escape_rune r.
+
+  Lemma quote_stepf s : quote s = 34 :: flat_map stepf (runes_of s) ++ [34].
+  Proof. reflexivity. Qed.
+
+  (* utf8_encode by range *)
+  Lemma enc1 c : c < 128 -> utf8_encode c = [c].
+  Proof. intros H. unfold utf8_encode. nb; simpl; nb; try lia; reflexivity. Qed.
+
+  Lemma enc2 c : 128 <= c -> c < 2048 -> utf8_encode c = [192 + c / 64; 128 + c mod 64].
+  Proof. intros H1 H2. unfold utf8_encode. nb; simpl; nb; try lia; reflexivity. Qed.
+
+  Lemma enc3 c : 2048 <= c -> c < 65536 -> (c < 55296 \/ 57343 < c) ->
+    utf8_encode c = [224 + c / 4096; 128 + (c / 64) mod 64; 128 + c mod 64].
+  Proof. intros H1 H2 H3. unfold utf8_encode. nb; simpl; nb; try lia; reflexivity. Qed.
+
+  Lemma enc4 c : 65536 <= c -> c <= 1114111 ->
+    utf8_encode c = [240 + c / 262144; 128 + (c / 4096) mod 64; 128 + (c / 64) mod 64; 128 + c mod 64].
+  Proof. intros H1 H2. unfold utf8_encode. nb; simpl; nb; try lia; reflexivity. Qed.
+End Quote.
